@@ -182,3 +182,38 @@ func vh_C14_profile_failure() {
 		}
 	}
 }
+
+// the Entra ID provider adds a tenant rule in front of the OIDC validation and never replaces
+// it: with or without an allowed-tenants list, a session is valid only if the token verifies and
+// its nonce claim hash-matches the session's nonce
+// verif: unwind=8 strlen=8 also=C04
+func vh_C05_entra_nonce() {
+	tenant := "tenant-a"
+	if ndBool("other-tenant") {
+		tenant = "tenant-b"
+	}
+	claims := map[string]interface{}{"sub": "someone", "iss": "https://login.microsoftonline.com/" + tenant + "/v2.0"}
+	hasNonce := ndBool("has-nonce-claim")
+	if hasNonce {
+		claims["nonce"] = vJSON("nonce")
+	}
+	tok := verifIDToken(claims)
+	ver := &vVerifier{}
+	p := &MicrosoftEntraIDProvider{OIDCProvider: &OIDCProvider{ProviderData: &ProviderData{Verifier: ver}}}
+	if ndBool("allowed-tenants-configured") {
+		p.multiTenantAllowedTenants = []string{"tenant-a"}
+	}
+	s := &sessions.SessionState{IDToken: tok, Nonce: ndBytes("session-nonce")}
+	verifAssume(len(s.Nonce) == 32)
+	ok := p.ValidateSession(context.Background(), s)
+	if ok {
+		verifReach("valid")
+		verifAssert("C04.entra.token-verified", ver.calls == 1 && ver.ok && ver.raw == tok)
+		str, isStr := claims["nonce"].(string)
+		verifAssert("C05.entra.nonce-claim-present-and-string", hasNonce && isStr)
+		verifAssert("C05.entra.nonce-hash-matches-session-nonce", str == encryption.HashNonce(s.Nonce))
+		verifAssert("C05.entra.tenant-allowed", len(p.multiTenantAllowedTenants) == 0 || tenant == "tenant-a")
+	} else {
+		verifReach("invalid")
+	}
+}
